@@ -31,6 +31,8 @@ type SNode struct {
 type SProp struct {
 	Key  string
 	Node *SNode
+	// KeyRef: the key is a user-type reference written without quotes (@name : value): "any key that matches that type".
+	KeyRef bool
 }
 
 // ---- bodies ----
